@@ -68,6 +68,14 @@ pub fn child_main(args: &[String]) {
     match args.first().map(String::as_str) {
         Some("dup") => spec::child_dup(&args[1..]),
         Some("std") => stdout::child_std(&args[1..]),
+        Some("crash") => {
+            // fvh child crash <casefile> <dir> <acks> <side> <work>
+            *flw::CRASH_CHILD.lock().unwrap() = Some(flw::CrashChild { dir: args[2].clone().into(), acks: args[3].clone().into(), side: args[4].clone().into() });
+            let text = std::fs::read_to_string(&args[1]).unwrap();
+            let lines: Vec<String> = text.lines().filter(|l| !l.trim().is_empty()).map(str::to_string).collect();
+            let mut ctx = crate::Ctx { work: args[5].clone().into(), report: Default::default(), case_no: 0 };
+            let _ = flw::execute(&mut ctx, &lines);
+        }
         Some("recurse") => robust::child_recurse(&args[1..]),
         _ => {
             eprintln!("unknown child mode");
